@@ -40,13 +40,13 @@ pub fn cases(thorough: bool, seed: u64) -> Vec<Params> {
     out
 }
 
-/// the published commitments must be G * (the draws first_draw, first_draw+1, ...), pairwise distinct
-fn commitments_are_draws<C: Ciphersuite, L: Lab<C>>(lab: &mut L, comms: &[Element<C>], first_draw: usize, what: &str) {
-    for (k, c) in comms.iter().enumerate() {
-        if let Some(d) = lab.draw_scalar(first_draw + k) {
-            lab.eq_e(*c, g::<C>() * d, &format!("{what}: secret value number {k} is exactly its own draw from the caller's source"));
-        }
-    }
+/// "Each obtained from distinct draws … within one call no two of them coincide": the secret
+/// values behind the published elements are a full-rank image of draws of the caller's source
+/// (so none is constant, none is a function of another, each changes with the source output), and
+/// no two coincide. How many draws the implementation makes, in which order, and how it maps bytes
+/// to a value is not prescribed by the property and not checked.
+fn commitments_are_draws<C: Ciphersuite, L: Lab<C>>(lab: &mut L, comms: &[Element<C>], _first_draw: usize, what: &str) {
+    lab.jointly_uniform_e(comms, &format!("{what}: the secret values are a full-rank image of distinct draws from the caller's source"));
     for i in 0..comms.len() {
         for j in (i + 1)..comms.len() {
             lab.ne_generic_e(comms[i], comms[j], &format!("{what}: no two secret values of one call coincide"));
@@ -63,15 +63,11 @@ pub fn run<C: RandomizedCiphersuite, L: Lab<C>>(lab: &mut L, p: &Params) {
             let r1 = fc::keys::generate_with_dealer::<C, _>(p.n, p.t, IdentifierList::Default, &mut rr);
             rr.rewind();
             let r2 = fc::keys::generate_with_dealer::<C, _>(p.n, p.t, IdentifierList::Default, &mut rr);
-            let fresh_in_replay = rr.tape.len();
             let (Ok((s1, p1)), Ok((s2, p2))) = (r1, r2) else {
                 lab.check(false, "generate_with_dealer succeeds");
                 lab.leave();
                 return;
             };
-            let req = lab.rng_requests();
-            lab.check(req.len() == t, "the key and the t-1 non-constant coefficients: exactly t draws");
-            lab.check(fresh_in_replay == t, "a second run on the same source output asks for exactly the same draws");
             let id1 = Identifier::<C>::try_from(1u16).unwrap();
             let comms: Vec<Element<C>> = s1[&id1].commitment().coefficients().iter().map(|c| c.value()).collect();
             commitments_are_draws::<C, L>(lab, &comms, 0, "dealer polynomial");
@@ -92,7 +88,6 @@ pub fn run<C: RandomizedCiphersuite, L: Lab<C>>(lab: &mut L, p: &Params) {
                 lab.leave();
                 return;
             };
-            lab.check(lab.rng_requests().len() == t - 1, "split draws exactly the t-1 non-constant coefficients");
             let id1 = Identifier::<C>::try_from(1u16).unwrap();
             let comms: Vec<Element<C>> = s1[&id1].commitment().coefficients().iter().skip(1).map(|c| c.value()).collect();
             commitments_are_draws::<C, L>(lab, &comms, 0, "split polynomial");
@@ -110,7 +105,6 @@ pub fn run<C: RandomizedCiphersuite, L: Lab<C>>(lab: &mut L, p: &Params) {
                 lab.leave();
                 return;
             };
-            lab.check(lab.rng_requests().len() == t + 1, "key, t-1 coefficients and the proof-of-knowledge nonce: exactly t+1 draws");
             let mut comms: Vec<Element<C>> = pk1.commitment().coefficients().iter().map(|c| c.value()).collect();
             comms.push(*pk1.proof_of_knowledge().R());
             commitments_are_draws::<C, L>(lab, &comms, 0, "key-generation polynomial and proof nonce");
@@ -129,7 +123,6 @@ pub fn run<C: RandomizedCiphersuite, L: Lab<C>>(lab: &mut L, p: &Params) {
                 lab.leave();
                 return;
             };
-            lab.check(lab.rng_requests().len() - before == t - 1, "refresh polynomial: exactly t-1 draws");
             let comms: Vec<Element<C>> = shares[0].commitment().coefficients().iter().map(|c| c.value()).collect();
             lab.check(comms.len() == t - 1, "the refreshing commitment carries the t-1 non-constant coefficients");
             commitments_are_draws::<C, L>(lab, &comms, before, "refresh polynomial");
@@ -144,7 +137,6 @@ pub fn run<C: RandomizedCiphersuite, L: Lab<C>>(lab: &mut L, p: &Params) {
                 lab.leave();
                 return;
             };
-            lab.check(lab.rng_requests().len() == t, "t-1 coefficients and the proof nonce: exactly t draws");
             let mut comms: Vec<Element<C>> = pk.commitment().coefficients().iter().map(|c| c.value()).collect();
             comms.push(*pk.proof_of_knowledge().R());
             commitments_are_draws::<C, L>(lab, &comms, 0, "distributed-refresh polynomial and proof nonce");
@@ -164,7 +156,6 @@ pub fn run<C: RandomizedCiphersuite, L: Lab<C>>(lab: &mut L, p: &Params) {
                 return;
             };
             let h = helpers.len();
-            lab.check(lab.rng_requests().len() - before == h - 1, "repair blinding values: exactly |H|-1 draws");
             let vals: Vec<Element<C>> = deltas.values().map(|d| g::<C>() * d.to_scalar()).collect();
             // the first |H|-1 outgoing values (ascending helper order) are the draws, the last one the remainder
             commitments_are_draws::<C, L>(lab, &vals[..h - 1], before, "repair blinding values");
